@@ -80,6 +80,18 @@ check("C02", "DESIGN.md 5/C02",
       "Trusted: gamma (abstract frame -> DataFrame) and alpha (asarray/toarray). Verdict is equality with the model's matrix; under rank "
       "reduction this also fixes the reduced/full choice to the greedy one the model transcribes.")
 
+check("C03", "DESIGN.md 5/C03",
+      "TLA+ transcription of the greedy rank-reduction algorithm (Materialize.tla: Span/Simplify/ScopeAll) with the partition-of-"
+      "interaction-pieces theorem model-checked in TLC over the whole 31-term lattice; observed model_spec.structure validated by TLC "
+      "(Trace_RankReduce); numpy rank/span cross-check on fully crossed designs",
+      "TLC proves that for every sequence of distinct terms in the bound (any order, intercept on/off, clustering on/off) the emitted "
+      "scoped terms partition the pure-interaction pieces, i.e. independent columns and unchanged span on a crossed design; for every "
+      "enumerated sequence the real code is run on a crossed frame in general position, its observed structure is accepted by TLC iff it is "
+      "such a partition (any valid assignment passes) and numpy confirms rank(X) = ncols and span equality with the unreduced matrix, "
+      "under 9 contrast options and varying level counts.",
+      "Trusted: the linear-algebra lemma (checked numerically on every replayed case: a disagreement between lemma and numpy is a "
+      "machinery error), numpy.linalg.matrix_rank on small integer matrices.")
+
 NOT_YET = "check not yet built in this round (planned; see DESIGN.md section 5)"
 
 
